@@ -336,6 +336,14 @@ func init() {
 						cs = append(cs, fw.Case{ID: fmt.Sprintf("compiled/%s/tamper/%d", n, i), Kind: "compiled", P: map[string]any{"inst": n, "i": i}})
 					}
 				}
+				// gnark's own test engine on tampered k=1 instances: its verdict must agree with the monitoring engine's
+				ng := 2
+				if !ctx.Quick {
+					ng = 40
+				}
+				for i := 0; i < ng; i++ {
+					cs = append(cs, fw.Case{ID: fmt.Sprintf("gnarkengine/A_testdata/%d", i), Kind: "gnarkengine", P: map[string]any{"inst": "A_testdata", "i": i}})
+				}
 				// a tampered proof verified by a VerifierChip that has just verified valid ones
 				nseq := 6
 				if !ctx.Quick {
@@ -446,6 +454,27 @@ func init() {
 					}
 					o.Inc("desc_rejected_" + d.What + "_" + res.Verdict.String())
 					o.Sample = map[string]any{"change": d.What, "i": d.I, "ref": trunc(refErr.Error(), 60), "verdict": resStr(res)}
+				case "gnarkengine":
+					t := getInst(name).Restrict(1)
+					ls := c01Leaves(t)
+					r := ctx.Rand(c.ID)
+					l := ls[r.Intn(len(ls))]
+					pert := c01Perts[r.Intn(len(c01Perts))]
+					changed, desc := c01Apply(ls, l.Path, pert, ctx, c.ID)
+					if !changed {
+						return fw.Outcome{Trivial: true}
+					}
+					gerr := gnarkIsSolved(t.VerifierCircuit(), t.VerifierCircuit())
+					res := runVerifier(t, engine.Options{Face: engine.Commit})
+					o.Events += events(res)
+					if gerr == nil {
+						return fw.Violate("gnark_engine_accepts_tampered:"+l.Kind+":"+pert, fmt.Sprintf("case %s: %s %s accepted by gnark's test engine (monitoring engine: %s)", c.ID, l.Path, desc, resStr(res)))
+					}
+					if res.Verdict == engine.Accept {
+						return fw.Violate("accepts_tampered:"+l.Kind+":"+pert, fmt.Sprintf("case %s: monitoring engine (commit face) ACCEPTED while gnark's test engine rejects", c.ID))
+					}
+					o.Inc("gnark_engine_and_monitoring_engine_agree_reject")
+					o.Sample = map[string]any{"leaf": l.Path, "change": desc, "gnark": trunc(gerr.Error(), 60), "engine": resStr(res)}
 				case "sequence":
 					first := getInst(name).Restrict(1)
 					second := getInst("A_testjson").Restrict(1)
